@@ -7,8 +7,8 @@
    Strings, true, naturals, arrays and objects built from such texts are such
    texts; the renderers of Cli/Escape.v are instances. *)
 From Ink.Data Require Import Types PathProofs.
-From Ink.Json Require Import JsonStd JsonStdProofs Tokenizer TokenizerProofs.
-From Ink.Cli Require Import Escape EscapeProofs.
+From Ink.Json Require Import JsonStd JsonStdProofs TokenizerCore TokenizerProofs.
+From Ink.Cli Require Import EscapeCore EscapeProofs.
 From Coq Require Import Lia.
 
 Definition plainb (c : N) : bool :=
